@@ -26,6 +26,8 @@ SHAPES = [
     b"0Form\x0cfeed and \x0bvt\tf&g.txt", b"info with NEL \xc2\x85 and LS \xe2\x80\xa8 inside",
     # URL: selectors whose scheme has no "//"
     b"hMail us\tURL:mailto:admin@example.com", b"hNews\t/URL:news:comp.infosystems.gopher",
+    # a selector inside a real directory that is named like the WAP prefix; every field written out, with port 0 and a large port
+    b"0In the wap directory\t/wap/guide.txt", b"iFully spelled info\t/\t(NULL)\t0", b"1Big port\t/x\tremote.example\t65535", b"1Port one\t/x\tremote.example\t1",
 ]
 PLACEMENTS = ["root", "d1", "d2", "file", "rootfile", "zip", "dirnamed"]
 
@@ -141,6 +143,14 @@ def check_one(lines, term, placement, views):
         got = canon_entries(view, entries, drop_info=False)
         if view == "gopher":
             base = got
+            # host and port fields that the map spells out reach the menu as written (info lines included,
+            # which the (info, name, target) view does not compare)
+            raw = list(parsers.gopher_menu_lines(r.out))
+            refs = reference(lines, dirsel)
+            if len(raw) == len(refs):
+                for k, ((t, name, sel_, host_, port_, plus), (typ, desc, rsel, rhost, rport)) in enumerate(zip(raw, refs)):
+                    if (rhost is not None and host_ != rhost) or (rport is not None and int(port_) != rport):
+                        bad.append((view, "fields", "gophermap line %r (%s, %s): the menu line carries host %r port %r, the map says %r %r" % (lines[k], term, placement, host_, port_, rhost, rport)))
             if got != want:
                 i = next((j for j in range(min(len(got), len(want))) if got[j] != want[j]), min(len(got), len(want)))
                 bad.append((view, "reference", "gophermap %r (%s, %s): entry #%d is %r, the documented reading gives %r (listing has %d entries, expected %d)" % (
